@@ -46,11 +46,27 @@ FOREIGN = ['!!int x', '!!int ""', '!!bool maybe', '!!bool ""', '!!timestamp x', 
            '!!int ' + '9' * 5000, '9' * 5000, '1e' + '9' * 400, '0x' + 'f' * 5000, '1:' * 2000 + '1']
 
 
+def _reg_expect():
+    import datetime
+    e = {}
+    for t, safe, basev in (('1.2.3', ['1.2.3'], ['1.2.3']), ('- 1.2.3\n- 10.20.30', [['1.2.3', '10.20.30']], [['1.2.3', '10.20.30']]),
+                           ('v: 1.2.3', [{'v': '1.2.3'}], [{'v': '1.2.3'}]), ('pk: {a: 1}', [{'pk': {'a': 1}}], [{'pk': {'a': '1'}}]),
+                           ('pk: [a]', [{'pk': ['a']}], [{'pk': ['a']}]), ('"@abc"', ['@abc'], ['@abc']),
+                           ('k: 2001-01-01', [{'k': datetime.date(2001, 1, 1)}], [{'k': '2001-01-01'}])):
+        e[(t, False)] = repr(safe)
+        e[(t, True)] = repr(basev)
+    return e
+
+
+REG_PLAIN_EXPECT = _reg_expect()
+
+
 def plan(tier, seed):
     q = tier == 'quick'
     n = 12 if q else 14
     specs = [{'kind': 'product', 'shard': i, 'of': n, 'sample': 0.09 if q else 1.0, 'cext': 'plain'} for i in range(n)]
     specs.append({'kind': 'foreign', 'shard': 0, 'cext': 'plain'})
+    specs.append({'kind': 'registered', 'shard': 0, 'cext': 'plain'})
     for i in range(2 if q else 8):
         specs.append({'kind': 'corpus', 'shard': i, 'n': 1500 if q else 20000, 'cext': 'plain'})
     return specs
@@ -302,6 +318,62 @@ def product_docs(shard, of, sample, seed):
                 k += 1
 
 
+def app_registrations(canary):
+    """What applications do to the *other* loaders (module-level helpers with and without Loader=, class methods on
+    the unsafe/full classes and on subclasses of the safe ones, YAMLObject): none of it may reach a safe loader.
+    Returns (registered tags, texts whose plain meaning must not change, constructor functions)."""
+    import re
+    fns = {}
+
+    def mk(name, multi=False):
+        if multi:
+            def f(loader, suffix, node, _n=name):
+                canary.bump('registered ' + _n)
+                return canary.Canary()
+        else:
+            def f(loader, node, _n=name):
+                canary.bump('registered ' + _n)
+                return canary.Canary()
+        f.__name__ = 'app_' + name
+        fns['app:' + name] = f
+        return f
+    tags = []
+    yaml.add_constructor('!app0', mk('c_default'))
+    tags.append('!app0')
+    yaml.add_multi_constructor('!appm0:', mk('m_default', True))
+    tags.append('!appm0:x')
+    yaml.add_multi_constructor('tag:yaml.org,2002:python/app:', mk('m_py', True))
+    tags.append('tag:yaml.org,2002:python/app:os.system')
+    targets = ['Loader', 'FullLoader', 'UnsafeLoader'] + (['CLoader', 'CFullLoader', 'CUnsafeLoader'] if yamlapi.HAVE_C else [])
+    for i, ln in enumerate(targets):
+        L = getattr(yaml, ln)
+        yaml.add_constructor('!app%d' % (i + 1), mk('c_' + ln), Loader=L)
+        L.add_constructor('!cls%d' % i, mk('cc_' + ln))
+        yaml.add_multi_constructor('!appm%d:' % (i + 1), mk('m_' + ln, True), Loader=L)
+        L.add_multi_constructor('!clsm%d:' % i, mk('cm_' + ln, True))
+        tags += ['!app%d' % (i + 1), '!cls%d' % i, '!appm%d:x' % (i + 1), '!clsm%d:x' % i]
+    for i, base in enumerate(yamlapi.loaders(['SafeLoader', 'CSafeLoader', 'BaseLoader'])):
+        Sub = type('AppSub' + base, (getattr(yaml, base),), {})
+        Sub.add_constructor('!sub%d' % i, mk('sub_' + base))
+        Sub.add_multi_constructor('!subm%d:' % i, mk('subm_' + base, True))
+        yaml.add_constructor('!subf%d' % i, mk('subf_' + base), Loader=Sub)
+        tags += ['!sub%d' % i, '!subm%d:x' % i, '!subf%d' % i]
+
+    class AppObj(yaml.YAMLObject):
+        yaml_tag = '!appobj'
+
+    class AppObj2(yaml.YAMLObject):
+        yaml_tag = '!appobj2'
+        yaml_loader = yaml.UnsafeLoader
+    tags += ['!appobj', '!appobj2']
+    # implicit / path resolvers registered the default way must not change what the safe loaders see
+    yaml.add_implicit_resolver('!ver', re.compile('^[0-9]+[.][0-9]+[.][0-9]+$'), list('0123456789'))
+    yaml.add_implicit_resolver('!at', re.compile('^@[a-z]+$'), ['@'])
+    yaml.add_path_resolver('!path', ['pk'], dict)
+    plain = ['1.2.3', '- 1.2.3\n- 10.20.30', 'v: 1.2.3', 'pk: {a: 1}', 'pk: [a]', '"@abc"', 'k: 2001-01-01']
+    return tags, plain, fns
+
+
 def selftest(h, ctx):
     """Monitor liveness: the same monitors must fire when the unsafe loader does what a document names."""
     ok = 0
@@ -332,6 +404,46 @@ def run(spec, ctx):
                 ctx.sample({'tag': tag, 'kind': nk, 'context': c, 'spelling': s, 'text': text})
             n += 1
             check_safe_doc(h, text, dict(info, untagged=un, tagged=True), ctx, True, un)
+    elif kind == 'registered':
+        base_plain = None
+        tags, plain, fns = app_registrations(h.canary)
+        d0 = confine.state_digest()          # the registrations themselves are the application's doing
+        h.conf.targets.update({id(f): n for n, f in fns.items()})
+        h.conf.keep.extend(fns.values())
+        h.conf.flag_ids.update({id(f): n for n, f in fns.items()})
+        # liveness: the registrations are live on the loaders they were made for
+        live = 0
+        for ln, doc in (('Loader', '!app0 x'), ('UnsafeLoader', '!appm0:x y'), ('Loader', '!appobj {a: 1}')):
+            st, res, flagged = h.load(doc, ln)
+            live += st == 'ok' and not isinstance(res[0], (str, dict))
+        ctx.stat('registered_selftest_live', live)
+        ctx.stat('registered_selftest_expected', 3)
+        r = random.Random(core.h64('C01reg', spec['seed']))
+        for tag in tags:
+            for nk in TD.KINDS:
+                combos = [(c, s2) for c in TD.CONTEXTS for s2 in ('bangbang', 'verbatim')]
+                r.shuffle(combos)
+                done = 0
+                for c, s2 in combos:
+                    rr = TD.render(tag, nk, c, s2)
+                    if rr is None:
+                        continue
+                    un = TD.render('', nk, c, s2)
+                    ctx.case(core.h64(rr[0]), True, ['registered', 'kind:' + nk, 'ctx:' + c])
+                    check_safe_doc(h, rr[0], dict(rr[1], untagged=un[0], tagged=True), ctx, True, un[0])
+                    done += 1
+                    if done >= 6:
+                        break
+        ctx.sample({'class': 'application-registered tags', 'tags': tags[:12]})
+        for t in plain:
+            ctx.case(core.h64('plain', t), True, ['registered_plain'])
+            for lname in h.loader_names:
+                st, res, flagged = h.load(t, lname)
+                ctx.stat('loads')
+                want = REG_PLAIN_EXPECT.get((t, lname in BASE))
+                if st != 'ok' or flagged or repr(res) != want:
+                    ctx.violation({'text': t, 'info': {'registered_plain': True}}, {'loader': lname, 'what': 'a resolver registered on the default loaders changed what a safe loader builds',
+                                                                                   'got': repr(res)[:200], 'want': want, 'events': flagged[:4]}, None)
     elif kind == 'foreign':
         for t in FOREIGN:
             for wrap in ('%s', '- %s', 'k: %s', '? %s\n: v', '- &a %s\n- *a'):
@@ -392,6 +504,8 @@ def summarize(agg, tier):
     out['targets_dropped_by_calibration'] = 'targets the library itself calls on benign documents (e.g. yaml.load from safe_load) are not flagged'
     if not st.get('loads') or not st.get('call_events'):
         out['_inconclusive'] = 'the CALL monitor observed no event from yaml code (or nothing was loaded)'
+    elif st.get('registered_selftest_live', 0) < st.get('registered_selftest_expected', 0):
+        out['_inconclusive'] = 'the application-style registrations did not take effect on the loaders they were made for'
     elif st.get('monitor_selftest_fired', 0) < st.get('monitor_selftest_expected', 1):
         out['_inconclusive'] = 'monitor self-test: the monitors did not fire on an unsafe load that calls/instantiates a canary (%d of %d)' % (st.get('monitor_selftest_fired', 0), st.get('monitor_selftest_expected', 0))
     return out
